@@ -646,7 +646,24 @@ func e2eAppComponent(r *hx.Run) {
 		var res sxRun
 		for try := 0; try < 3; try++ {
 			farm = newAppFarm(cb.cmd, cb.proto, tlsCfg, variant, sp.targets)
-			res = runSXOpt(sxOpt{slowStderr: slowErr}, nil, 60*time.Second, args...)
+			merged := strings.HasSuffix(extra, "/merged")
+			res = runSXOpt(sxOpt{slowStderr: slowErr, merge: merged}, nil, 60*time.Second, args...)
+			if merged {
+				// `sx … 2>&1 | tee log`: every line of the one stream is one whole record of one of the two kinds
+				var so, se strings.Builder
+				for _, line := range strings.Split(res.stdout, "\n") {
+					var m map[string]interface{}
+					if strings.TrimSpace(line) == "" {
+						continue
+					}
+					if json.Unmarshal([]byte(line), &m) == nil && m["level"] == "error" {
+						se.WriteString(line + "\n")
+					} else {
+						so.WriteString(line + "\n") // a result, or neither (then it shows up as a BAD record)
+					}
+				}
+				res.stdout, res.stderr = so.String(), se.String()
+			}
 			time.Sleep(10 * time.Millisecond)
 			farm.close()
 			lab.take()
@@ -845,6 +862,32 @@ func e2eAppComponent(r *hx.Run) {
 		} else {
 			runRec(cb, sp, "/mass/slowerr")
 		}
+	}
+	// results and error records, hundreds of each at the same time, into ONE stream (`2>&1`): every line is still one
+	// whole record (a record is one write)
+	nMerged := 1
+	if thorough {
+		nMerged = 4
+	}
+	for i := 0; i < nMerged; i++ {
+		cb := combos[rng.Intn(len(combos))]
+		if i == 0 {
+			cb = combos[0]
+		}
+		var sp appSpec
+		sp.mode, sp.ones = "net", 32
+		sp.base = uint32(127<<24) | uint32(1+rng.Intn(200))<<16 | uint32(rng.Intn(250))<<8 | uint32(1+rng.Intn(250))
+		p0 := 20000 + rng.Intn(20000)
+		n := 500 + rng.Intn(300)
+		for p := 0; p < n; p++ {
+			sp.ports = append(sp.ports, p0+p)
+			beh := "refused"
+			if p%2 == 0 {
+				beh = "ok"
+			}
+			sp.targets = append(sp.targets, appTarget{ip: sp.base, port: p0 + p, beh: beh})
+		}
+		runRec(cb, sp, "/mass/merged")
 	}
 
 	// a subnet of thousands of addresses, nothing listening on most of them, a few servers that take their time: the
